@@ -26,6 +26,7 @@ type config struct {
 	Two   bool   `json:"two_ssrcs"`
 	Long  int    `json:"long_stall_ticks,omitempty"`
 	Syms  []int  `json:"symbols,omitempty"` // restricted alphabet (nil = all that stay within 2^15-1 of the highest)
+	First int    `json:"first_symbol"`      // shard: histories that start with this symbol (-1: not sharded)
 }
 
 // allowed lists the symbols whose offset keeps the arrival within 2^15-1 of
@@ -478,11 +479,21 @@ func configs(tier string) []config {
 				if tier == "thorough" {
 					d = 5
 				}
-				if skip == 0 && max == 0 && (tier == "thorough" || st == 65530) {
+				if skip == 0 && max == 0 && tier == "thorough" {
 					d++
 				}
 				out = append(out, config{Size: 64, Skip: skip, Max: max, Start: st, Depth: d})
 			}
+		}
+	}
+	// long histories over a small alphabet: what the per-number limit does over many ticks, staggered losses
+	deep := 7
+	if tier == "thorough" {
+		deep = 8
+	}
+	for _, max := range []int{0, 1, 2} {
+		for _, skip := range []int{0, 1} {
+			out = append(out, config{Size: 64, Skip: skip, Max: max, Start: 65530, Depth: deep, Syms: []int{0, 1, 8, 9, 15, 16}})
 		}
 	}
 	// two SSRCs on one interceptor (product alphabet): independence
@@ -504,9 +515,27 @@ func configs(tier string) []config {
 	return out
 }
 
+// shardedConfigs splits every single-stream configuration by the first symbol of the history.
+func shardedConfigs(tier string) []config {
+	var out []config
+	for _, c := range configs(tier) {
+		if c.Long > 0 || c.Two || c.Syms == nil || c.Size > 64 {
+			// state de-duplication across first symbols is what keeps the full alphabet cheap: not sharded
+			c.First = -1
+			out = append(out, c)
+			continue
+		}
+		for _, a := range c.allowed() {
+			c.First = a
+			out = append(out, c)
+		}
+	}
+	return out
+}
+
 func jobs(tier string) []string {
 	var names []string
-	for _, c := range configs(tier) {
+	for _, c := range shardedConfigs(tier) {
 		b, _ := json.Marshal(c)
 		names = append(names, string(b))
 	}
@@ -514,7 +543,7 @@ func jobs(tier string) []string {
 }
 
 func run(tier string, i int, deadline time.Time) *hk.JobResult {
-	c := configs(tier)[i]
+	c := shardedConfigs(tier)[i]
 	r := &hk.JobResult{Exhaustive: true, Bounds: map[string]any{"depth": c.Depth, "alphabet": len(symNames)}}
 	if c.Long > 0 {
 		return longStall(c, r)
@@ -610,7 +639,7 @@ func init() {
 		Run:    run,
 		Replay: replayFn,
 		Bounds: func(tier string) map[string]any {
-			return map[string]any{"configurations": len(configs(tier)), "alphabet": len(symNames), "tier": tier}
+			return map[string]any{"configurations": len(configs(tier)), "shards": len(shardedConfigs(tier)), "alphabet": len(symNames), "tier": tier}
 		},
 	})
 }
